@@ -10,6 +10,7 @@ from fjsa.report import Check
 from fjsa.rules import wmean
 from fjsa.rules.pure import PurityAnalysis
 
+EXTRA_FORWARD_FILES = ('fedjax/core/dataclasses.py', 'fedjax/training/structured_flags.py')
 MOD = 'fedjax.core.client_datasets'
 GLOBAL_RNG_OK = {'numpy.random.RandomState', 'numpy.random.default_rng', 'numpy.random.Generator', 'numpy.random.SeedSequence'}
 
@@ -53,6 +54,8 @@ def run(check: Check):
   BUF = buf_defs[0].name if buf_defs else None
   if ok_arange:
     ok_arange = len([d for ds in ff.rd.defs_at.values() for d in ds if d.name == BUF]) == 1
+  _index_dtype(check, fi, ff, buf_defs)
+  _flags(check)
   writes = []
   for n in ff.cfg.nodes:
     if n.ast is None:
@@ -211,6 +214,74 @@ def run(check: Check):
     check.ob('R-PURE', fi, mu.construct, False, f'{mu.how} ({mu.root})', node=mu.node)
   if not bad:
     check.ob('R-PURE', fi, '__iter__', True, 'no write through self: repeated iteration with a fixed seed is identical')
+
+
+WIDE_INT = {'int32', 'int64', 'intp', 'int_', 'uint32', 'uint64'}
+
+
+def _dtype_name(ff: FuncFlow, call: ast.Call):
+  d = next((k.value for k in call.keywords if k.arg == 'dtype'), None)
+  if d is None and len(call.args) >= 2 and ff.ext(call.func) in ('numpy.zeros', 'numpy.empty', 'numpy.ones'):
+    d = call.args[1]
+  if d is None:
+    return None   # numpy default
+  p = ff.ext(d)
+  if p and p.startswith('numpy.'):
+    return p.split('.')[-1]
+  if isinstance(d, ast.Constant) and isinstance(d.value, str):
+    return d.value
+  if isinstance(d, ast.Name) and d.id == 'int':
+    return 'int_'
+  return txt(d)
+
+
+def _index_dtype(check: Check, fi, ff: FuncFlow, buf_defs):
+  """Index arrays can address every row: the per-batch index array has the element type of the permutation buffer, and that
+  type is at least 32 bits wide."""
+  if len(buf_defs) != 1:
+    return
+  b_dt = _dtype_name(ff, buf_defs[0].value)
+  idx_defs = [d for ds in ff.rd.defs_at.values() for d in ds if isinstance(d.value, ast.Call) and ff.ext(d.value.func) in ('numpy.zeros', 'numpy.empty')]
+  for d in idx_defs:
+    i_dt = _dtype_name(ff, d.value)
+    wide = (b_dt is None or b_dt in WIDE_INT) and i_dt is not None and i_dt in WIDE_INT
+    same_w = b_dt is None or i_dt == b_dt or (i_dt in ('int64', 'intp', 'int_'))
+    check.ob('R-PERM.dtype', fi, f'{txt(d.value)[:60]} / {txt(buf_defs[0].value)[:50]}', wide and same_w,
+             f'row indices are copied from the permutation buffer ({b_dt or "default int"}) into the batch index array ({i_dt}): a narrower '
+             'type wraps silently for large clients and the batch then holds wrong (negative -> from the end) rows', node=d.value)
+  check.floor('R-PERM.dtype', 'index arrays', len(idx_defs), 1)
+
+
+def _flags(check: Check):
+  """Batching hyper-parameters built from command-line flags take each flag value as it is (0 is a value, not 'unset')."""
+  repo = check.repo
+  SF = 'fedjax.training.structured_flags'
+  try:
+    m = repo.module(SF)
+  except Exception:  # pylint: disable=broad-except
+    return
+  n = 0
+  for ci in m.classes():
+    g = ci.methods.get('get')
+    if g is None or not ci.name.endswith('HParamsFlags'):
+      continue
+    gff = FuncFlow.of(repo, g)
+    check.analysed(g)
+    for _, rv in gff.returns():
+      for c in gff.expand(rv):
+        if not (isinstance(c, ast.Call) and (wmean.repo_fn(gff, c) or gff.callee(c).kind == 'class')):
+          continue
+        for k in c.keywords:
+          if k.arg is None:
+            continue
+          n += 1
+          v = k.value
+          direct = isinstance(v, ast.Call) and txt(v.func) == 'self._get_flag' and len(v.args) == 1 and isinstance(v.args[0], ast.Constant)
+          ok = direct and v.args[0].value == k.arg
+          check.ob('R-FORWARD.flags', g, f'{k.arg}={txt(v)[:50]}', ok,
+                   f'hyper-parameter `{k.arg}` must be the value of the flag of the same name, unmodified (a truthiness default such as '
+                   '`x or None` turns an explicit 0 into "unset")', node=v)
+  check.floor('R-FORWARD.flags', 'hparams fields built from flags', n, 5)
 
 
 def _num_steps(check: Check):
